@@ -7,8 +7,9 @@ import HctlModel.Glue
 namespace Hctl.C16
 open Hctl Hctl.Archive
 
-/-- labels that can be reloaded: non-empty, no path separator -/
-def ValidLabel (l : List Char) : Prop := l ≠ [] ∧ '/' ∉ l
+/-- labels that can be reloaded: the last path component is not empty (the label is neither empty nor ends in '/');
+labels with inner separators (`dir/name`) are fine — they become entries in a sub-directory of the archive -/
+def ValidLabel (l : List Char) : Prop := l ≠ [] ∧ l.getLast? ≠ some '/'
 
 theorem splitLastDot_none {b : List Char} (h : '.' ∉ b) : splitLastDot b = none := by
   induction b with
@@ -22,38 +23,48 @@ theorem splitLastDot_app (a b : List Char) (h : '.' ∉ b) : splitLastDot (a ++ 
   | nil => simp [splitLastDot, splitLastDot_none h]
   | cons x a ih => simp [splitLastDot, ih]
 
-theorem fileName_noslash {p : List Char} (h : '/' ∉ p) : fileName p = p := by
+theorem takeWhile_app_all {p : Char → Bool} : ∀ (a b : List Char), (∀ x ∈ a, p x = true) →
+    (a ++ b).takeWhile p = a ++ b.takeWhile p := by
+  intro a
+  induction a with
+  | nil => intro b _; rfl
+  | cons c cs ih =>
+    intro b h
+    simp only [List.cons_append, List.takeWhile_cons, h c (by simp), if_true]
+    rw [ih b (fun x hx => h x (by simp [hx]))]
+
+/-- the file name of `<label>.bdd` is the last component of the label followed by `.bdd` -/
+theorem fileName_bdd (l : List Char) : fileName (l ++ ['.', 'b', 'd', 'd']) = fileName l ++ ['.', 'b', 'd', 'd'] := by
   unfold fileName
-  have hall : ∀ (l : List Char), (∀ x ∈ l, (x != '/') = true) → l.takeWhile (· != '/') = l := by
-    intro l
-    induction l with
-    | nil => intro _; rfl
-    | cons c cs ih =>
-      intro hl
-      simp only [List.takeWhile_cons, hl c (by simp), if_true]
-      rw [ih (fun x hx => hl x (by simp [hx]))]
-  have : p.reverse.takeWhile (· != '/') = p.reverse := by
-    apply hall
-    intro x hx
-    have : x ∈ p := List.mem_reverse.mp hx
-    simp only [bne_iff_ne, ne_eq]
-    intro e; subst e; exact h this
-  rw [this, List.reverse_reverse]
+  have : (l ++ ['.', 'b', 'd', 'd']).reverse = ['d', 'd', 'b', '.'] ++ l.reverse := by simp
+  rw [this, takeWhile_app_all _ _ (by decide)]
+  simp
+
+theorem fileName_nonempty (l : List Char) (h : ValidLabel l) : fileName l ≠ [] := by
+  unfold fileName
+  obtain ⟨h1, h2⟩ := h
+  cases hr : l.reverse with
+  | nil => simp at hr; exact absurd hr h1
+  | cons c cs =>
+    have hl : l.getLast? = some c := by
+      have : l = (c :: cs).reverse := by rw [← hr, List.reverse_reverse]
+      rw [this]; simp
+    have hc : c ≠ '/' := fun e => h2 (by rw [hl, e])
+    simp [List.takeWhile_cons, hc]
 
 /-- an entry `<label>.bdd` with a valid label has extension `bdd` and strips back to the label -/
 theorem bdd_entry_reloads (l : List Char) (h : ValidLabel l) :
     extension (l ++ ['.', 'b', 'd', 'd']) = some ['b', 'd', 'd'] ∧ stripBdd (l ++ ['.', 'b', 'd', 'd']) = some l := by
-  have hns : '/' ∉ l ++ ['.', 'b', 'd', 'd'] := by
-    simp only [List.mem_append, not_or]
-    exact ⟨h.2, by decide⟩
   constructor
   · unfold extension
-    rw [fileName_noslash hns]
-    have hne : (l ++ ['.', 'b', 'd', 'd']).isEmpty = false := by cases l <;> simp
-    have hsp : splitLastDot (l ++ ['.', 'b', 'd', 'd']) = some (l, ['b', 'd', 'd']) :=
-      splitLastDot_app l ['b', 'd', 'd'] (by decide)
-    have hl : l.isEmpty = false := by cases l with
-      | nil => exact absurd rfl h.1
+    rw [fileName_bdd]
+    have hf := fileName_nonempty l h
+    have hne : (fileName l ++ ['.', 'b', 'd', 'd']).isEmpty = false := by cases fileName l <;> simp
+    have hsp : splitLastDot (fileName l ++ ['.', 'b', 'd', 'd']) = some (fileName l, ['b', 'd', 'd']) :=
+      splitLastDot_app (fileName l) ['b', 'd', 'd'] (by decide)
+    have hl : (fileName l).isEmpty = false := by
+      cases hfl : fileName l with
+      | nil => exact absurd hfl hf
       | cons _ _ => rfl
     dsimp only
     rw [hsp]
@@ -61,8 +72,12 @@ theorem bdd_entry_reloads (l : List Char) (h : ValidLabel l) :
   · unfold stripBdd
     simp
 
+/-- nested labels are valid: `backup/attr` reloads as `backup/attr` -/
+example : ValidLabel "backup/attr".toList := by unfold ValidLabel; decide
+
 /-- the empty label and labels ending in '/' are written but never reloaded (see known findings) -/
 theorem empty_label_not_reloaded : extension ([] ++ ['.', 'b', 'd', 'd']) = none := by decide
+theorem slash_label_not_reloaded : extension (['a', '/'] ++ ['.', 'b', 'd', 'd']) = none := by decide
 
 /-- the other two entries are never mistaken for sets -/
 theorem nonbdd_ignored :
